@@ -47,6 +47,23 @@ def structure_list(tier, seed):
                 a = base.copy()
                 a.positions += f * np.array(a.get_cell())[k]
                 out.append((name + ":shift%+g" % f, a, None))
+    # non-rigidly unwrapped presentations: individual atoms moved by whole lattice vectors of periodic directions
+    for name, base, ads in families.f2_bases():
+        pbc = base.get_pbc()
+        per = [i for i in range(3) if pbc[i]]
+        if not per:
+            continue
+        a = base.copy()
+        cell = np.array(a.get_cell())
+        for i in range(len(a)):
+            if i % 4 == 0:
+                a.positions[i] += 2 * cell[per[0]]
+            elif i % 4 == 1:
+                a.positions[i] -= 3 * cell[per[-1]]
+        out.append((name + ":unwrapped", a, None))
+    # small unit cells of (layered) bulk crystals, fully periodic
+    for lab, at in families.unit_cells():
+        out.append(("unit:" + lab, at, None))
     st = families.stack_base()
     out.append(("stack", st, None))
     for lab, at in families.deviations(st, [], kinds=("vac", "sub")):
